@@ -6,6 +6,7 @@ mod matchers;
 mod semverx;
 mod pypi;
 mod resolvers;
+mod cacheseq;
 
 use std::collections::HashMap;
 
@@ -49,6 +50,7 @@ fn main() {
         "semver" => semverx::run(&args),
         "pypi" => pypi::run(&args),
         "resolvers" => resolvers::run(&args),
+        "cache-seq" => cacheseq::run(&args),
         other => {
             eprintln!("unknown stream {other}");
             std::process::exit(2);
